@@ -70,6 +70,9 @@ pub struct Host {
     /// called at the start of a `waitable-set.wait(set)` (engines whose task blocks inside the
     /// built-in — `block_on` — run their host directives here)
     pub on_wait: Option<fn(u32)>,
+    /// engines whose task can spin inside the runtime (`block_on`: YIELD → poll → YIELD …): number of
+    /// `waitable-set.poll` calls left before the host traps and answers EVENT_CANCEL (None = unlimited)
+    pub poll_budget: Option<u32>,
     /// live waitable sets
     pub sets: Vec<u32>,
     pub ctx0: usize,
@@ -406,6 +409,26 @@ pub unsafe extern "C" fn waitable_set_wait(set: u32, payload: *mut [u32; 2]) -> 
 
 #[export_name = "[waitable-set-poll]"]
 pub unsafe extern "C" fn waitable_set_poll(set: u32, payload: *mut [u32; 2]) -> u32 {
+    let spent = HOST.with(|h| {
+        let mut h = h.borrow_mut();
+        match h.poll_budget.as_mut() {
+            Some(0) => true,
+            Some(n) => {
+                *n -= 1;
+                false
+            }
+            None => false,
+        }
+    });
+    if spent {
+        trap("livelock");
+        unsafe {
+            (*payload)[0] = 0;
+            (*payload)[1] = 0;
+        }
+        ev(&format!("ws.poll({set})={EVENT_CANCEL}:0:0"));
+        return EVENT_CANCEL;
+    }
     set_poll(set, "poll", payload)
 }
 
